@@ -50,6 +50,9 @@ def pure_events(W, rnd, big):
             parts = [bits_of(rnd.getrandbits(w) if w else 0, w) for w in widths]
             for be in (False, True): ev += ev_concat_list(parts, be)
     ev += ev_concat_list([bits_of(0xdeadbeef >> (8 * i) & 255, 8) for i in range(4)], True)
+    for widths in ([8] * 9, [8, 8, 3, 8, 8, 8, 8, 8, 8, 8], [8, 1, 8, 8, 12, 8, 8, 8, 0, 8, 8], [8] * 4 + [16] + [8] * 7):      # long lists: byte-wide ends, other widths inside
+        parts = [bits_of(rnd.getrandbits(w) if w else 0, w) for w in widths]
+        for be in (False, True): ev += ev_concat_list(parts, be)
     return ev
 
 def slice_exprs(w):
@@ -65,6 +68,8 @@ def index_events(Wi, rnd, big):
             for i in range(-w - 1, w + 1): ev.append(ev_un('get_int', a, i=i))
             for (s0, s1, s2) in sl: ev.append(ev_un('get_slice', a, start=s0, stop=s1, step=s2))
             for idx in lists: ev.append(ev_un('get_list', a, idx=idx))
+            for (s0, s1) in ((0, w), (1, w), (0, w - 1), (1, 1), (w, w)):           # slice bounds given as Bits objects
+                for s2 in (NONE, 1, 2): ev.append(ev_un('get_slice', a, start=s0, stop=s1, step=s2, bits_bounds=True))
     return ev
 
 def sel_len(w, s):
@@ -79,7 +84,8 @@ def set_traces(Wi, rnd, big):
         for a in allvals(w):
             evs = []
             for i in range(-w - 1, w + 1):
-                for v in (0, 1): evs.append(dict(op='set_int', i=i, v=v))
+                for v in (0, 1):
+                    evs.append(dict(op='set_int', i=i, v=v)); evs.append(dict(op='set_int', i=i, v=v, vform='bits'))
             for s in sl:
                 n = sel_len(w, s)
                 vals = list(range(1 << n))
@@ -232,7 +238,7 @@ def run(ctx):
     validate_events(ctx, pe, 'operators W<=%d' % W)
     ctx.exhaustive_subspaces.append('all operand pairs of widths 0..%d (Bits/Bits, Bits/int, int/Bits) under & | ^ + - * // hd (augmented forms op= for widths <= 3); concat() of 1..5 pieces, both orders, twice on the same list; all unary ops, shifts 0..w+2, rotations 0..w, splits, extensions' % W)
     ie = index_events(Wi, rnd, big)
-    for e in ie: ctx.mark(('i', e['op'], str(e['a']), str([e.get(k) for k in ('i', 'start', 'stop', 'step', 'idx')])))
+    for e in ie: ctx.mark(('i', e['op'], str(e['a']), str([e.get(k) for k in ('i', 'start', 'stop', 'step', 'idx', 'bits_bounds')])))
     validate_events(ctx, ie, 'index reads w<=%d' % Wi)
     st = set_traces(Wi if big else 3, rnd, big)
     ctx.sample(st[len(st) // 3])
